@@ -23,7 +23,7 @@ BUNDLE = ("smooth::Bundle<smooth::SO3d, Eigen::Vector3d, smooth::SE2d>", [("o.te
                                                                             ("o.template part<2>()", "smooth::SE2d", 7, 11)], 11)
 
 OPS = ["assign", "from_value", "to_value", "mul_inplace", "plus_inplace", "set_identity", "mul_map", "mul_value", "inv_map", "inv_value",
-       "log_map", "log_value", "Ad_map", "Ad_value", "selfmul", "assign_fwd", "assign_bwd"]
+       "log_map", "log_value", "Ad_map", "Ad_value", "selfmul", "assign_fwd", "assign_bwd", "assign_fwd2", "assign_bwd2"]
 
 
 def tu_text(g):
@@ -98,7 +98,7 @@ def job(g, tier):
         return g.random_element(r, 2.0) + g.random_element(r, 2.0) + [r.uniform(-1, 1) for _ in range(D)]
     ex = engine.Explorer(h.mod, max_paths=64)
     outs = {}
-    nouts = {"log_map": D, "log_value": D, "Ad_map": D * D, "Ad_value": D * D, "assign_fwd": R + 1, "assign_bwd": R + 1}
+    nouts = {"log_map": D, "log_value": D, "Ad_map": D * D, "Ad_value": D * D, "assign_fwd": R + 1, "assign_bwd": R + 1, "assign_fwd2": R + 2, "assign_bwd2": R + 2}
     for op in OPS:
         fn = "%s_%s" % (t, op)
         nout = nouts.get(op, R)
@@ -156,7 +156,8 @@ def job(g, tier):
                 if not same:
                     res.violations.append({"key": "%s/%s/verbatim" % (t, op), "what": "%s %s does not copy the coefficients verbatim" % (t, op)})
     # assignment between partially OVERLAPPING views of one buffer copies the source's coefficients verbatim (both directions)
-    for op, side, exp_ in (("assign_fwd", "src-after-dst", ins[1:R + 1] + [ins[R]]), ("assign_bwd", "dst-after-src", [ins[0]] + ins[:R])):
+    for op, side, exp_, sh in (("assign_fwd", "src-after-dst", ins[1:R + 1] + [ins[R]], 1), ("assign_bwd", "dst-after-src", [ins[0]] + ins[:R], 1),
+                               ("assign_fwd2", "src-after-dst-by2", ins[2:R + 2] + ins[R:R + 2], 2), ("assign_bwd2", "dst-after-src-by2", ins[:2] + ins[:R], 2)):
         for p in outs[(op, PAD)]:
             if p.status != "ok":
                 continue
@@ -166,12 +167,12 @@ def job(g, tier):
                 res.add_raw(key_o, "holds", "destination holds the source's previous coefficients (term identity), the remaining scalar is untouched")
                 continue
             inp = sampler(3)
-            outn = h.native("%s_%s" % (t, op), inp, R + 1)
+            outn = h.native("%s_%s" % (t, op), inp, R + sh)
             want = [float(T.evaluate(e, dict(zip([x.args[0] for x in ins], inp)))) for e in exp_]
             if any(a != b for a, b in zip(outn, want)):
                 res.add_raw(key_o, "violated", "symbolic copy differs from the source's previous coefficients; reproduced natively")
-                res.violations.append({"key": key_o, "what": "%s: assignment between views shifted by one scalar (%s) does not copy verbatim: got %r, source held %r" % (key_o, side, outn, want),
-                                       "replay": {"property": PID, "key": key_o, "tu_name": h.name, "tu_text": h.text, "fn": "%s_%s" % (t, op), "inputs": inp, "nout": R + 1, "native": outn,
+                res.violations.append({"key": key_o, "what": "%s: assignment between views shifted by one or two scalars (%s) does not copy verbatim: got %r, source held %r" % (key_o, side, outn, want),
+                                       "replay": {"property": PID, "key": key_o, "tu_name": h.name, "tu_text": h.text, "fn": "%s_%s" % (t, op), "inputs": inp, "nout": R + sh, "native": outn,
                                                   "err": 1.0, "tol": 0.0, "obligation": "verbatim copy between overlapping views", "lhs": str(outn), "rhs": str(want)}})
             else:
                 res.add_raw(key_o, "undecided", "symbolic copy differs, native copy is verbatim (compiler-dependent evaluation order)")
